@@ -328,7 +328,7 @@ SPEC_MUTANTS = {
     "cbg": [("energy-setter-does-not-recompute", 'THEN {} ELSE {"efun"}', 'THEN {} ELSE {}'),
             ("polarization-setter-does-not-recompute", 'IF p = "polarization" THEN {"polfun"}', 'IF p = "polarization" THEN {}')],
     "gaussspec": [("spectrum-setter-does-not-rebin", 'Recomputes(p) == IF IsSpectrum THEN {"binned"}', 'Recomputes(p) == IF IsSpectrum THEN {}'),
-                  ("refused-value-assigned", "    /\\ outcome' = \"ValueError\"\n    /\\ UNCHANGED <<par, cache, touched>>", "    /\\ outcome' = \"ValueError\"\n    /\\ par' = [par EXCEPT ![p] = 1] /\\ UNCHANGED <<cache, touched>>")],
+                  ("refused-value-assigned", "    /\\ outcome' = \"ValueError\"\n    /\\ UNCHANGED <<par, cache, touched, attached>>", "    /\\ outcome' = \"ValueError\"\n    /\\ par' = [par EXCEPT ![p] = 1] /\\ UNCHANGED <<cache, touched, attached>>")],
 }
 
 
